@@ -113,9 +113,10 @@ section scalar
 variable {α : Type} [Add α] [Sub α] [Mul α] [Div α] [Neg α] [Zero α] [One α] [OfScientific α] [NatCast α]
   [LT α] [LE α] [DecidableLT α] [DecidableLE α] [BEq α]
 
-/-- `n = max(self._min_samples, <int>(length / self._step))` -/
-def nSamples (trunc : α → Int) (minSamples : Int) (length step : α) : Int :=
-  max minSamples (trunc (length / step))
+/-- `n = max(self._min_samples, <int>(length / self._step) + extra)`; `extra` is read from the source by the translator
+(`Gen/RayTransfer.lean`): 0 on the tree as it is, 1 once notes/fixes/C10-1.diff is applied -/
+def nSamples (trunc : α → Int) (extra : Int) (minSamples : Int) (length step : α) : Int :=
+  max minSamples (trunc (length / step) + extra)
 
 /-- `dt = length / n` -/
 def dtOf (length : α) (n : Int) : α := length / ((n.toNat : Nat) : α)
@@ -157,14 +158,14 @@ structure Plan (α : Type) where
   uy : α
   uz : α
 
-def plan (trunc : α → Int) (sqrt : α → α) (step : α) (minSamples : Int) (s : Seg α) : Option (Plan α) :=
+def plan (trunc : α → Int) (sqrt : α → α) (extra : Int) (step : α) (minSamples : Int) (s : Seg α) : Option (Plan α) :=
   let vx := s.ex - s.sx                      -- start.vector_to(end)
   let vy := s.ey - s.sy
   let vz := s.ez - s.sz
   let length := sqrt (vx * vx + vy * vy + vz * vz)      -- get_length
   if length < 0.1 * step then none else
   let t := 1.0 / sqrt (vx * vx + vy * vy + vz * vz)     -- normalise
-  let n := nSamples trunc minSamples length step
+  let n := nSamples trunc extra minSamples length step
   some { n := n, dt := dtOf length n, ux := vx * t, uy := vy * t, uz := vz * t }
 
 /-- cells of the successive sample points -/
@@ -175,20 +176,20 @@ def sampleCells (cellOf : α → α → α → Cell) (s : Seg α) (p : Plan α) 
 
 /-- `integrate` for either geometry, given its index function -/
 def integrateWith (cellOf : α → α → α → Cell) (trunc : α → Int) (sqrt : α → α)
-    (look : Cell → Option Int) (nbins : Nat) (step : α) (minSamples : Int)
+    (look : Cell → Option Int) (nbins : Nat) (extra : Int) (step : α) (minSamples : Int)
     (spec : Int → α) (s : Seg α) : Option (Int → α) :=
-  match plan trunc sqrt step minSamples s with
+  match plan trunc sqrt extra step minSamples s with
   | none => some spec
   | some p => accumulate look nbins p.dt spec (sampleCells cellOf s p)
 
-def integrateCart (trunc : α → Int) (sqrt : α → α) (look : Cell → Option Int) (nbins : Nat)
+def integrateCart (trunc : α → Int) (sqrt : α → α) (look : Cell → Option Int) (nbins : Nat) (extra : Int)
     (dx dy dz step : α) (minSamples : Int) (spec : Int → α) (s : Seg α) : Option (Int → α) :=
-  integrateWith (cartCell trunc dx dy dz) trunc sqrt look nbins step minSamples spec s
+  integrateWith (cartCell trunc dx dy dz) trunc sqrt look nbins extra step minSamples spec s
 
 def integrateCyl (trunc : α → Int) (sqrt : α → α) (atan2 : α → α → α) (fmod : α → α → α) (pi : α)
-    (look : Cell → Option Int) (nbins : Nat) (nphi : Nat) (dr dphi dz rmin period step : α) (minSamples : Int)
-    (spec : Int → α) (s : Seg α) : Option (Int → α) :=
-  integrateWith (cylCell trunc sqrt atan2 fmod pi nphi dr dphi dz rmin period) trunc sqrt look nbins step
+    (look : Cell → Option Int) (nbins : Nat) (extra : Int) (nphi : Nat) (dr dphi dz rmin period step : α)
+    (minSamples : Int) (spec : Int → α) (s : Seg α) : Option (Int → α) :=
+  integrateWith (cylCell trunc sqrt atan2 fmod pi nphi dr dphi dz rmin period) trunc sqrt look nbins extra step
     minSamples spec s
 
 /-! ### bounding primitives (raytransfer.py) -/
